@@ -18,6 +18,8 @@ FIX = @@FIX@@              # argument name -> fixed value (absent: symbolic)
 PREFIXES = @@PREFIXES@@    # menu of explicit prefixes chosen by `which` when has_prefix (e.g. one that ends with the separator)
 SUBTRACT = @@SUBTRACT@@    # ids of known findings whose input region is subtracted from this obligation (normally empty)
 BASE = "/w/in"
+# what the patterns mean is the matcher's business (a symbolic verdict per path here); CMinx's part is to hand them over as given
+PATTERNS = ["/w/in/**/t*/", "name", "!keep.cmake", "sub/x.cmake", " spaced "]
 OUTS = ["/w/out", "/w/in/docs", "/w", "out"]      # absolute elsewhere, nested in the input tree, parent of it, relative to cwd
 ENTS = vfslib.flatten(SKEL, BASE)
 NE = len(ENTS)
@@ -105,6 +107,7 @@ def _settings(out, recursive, auto_ex, has_prefix, sep2, ext_t, ext_m):
     s.rst.module_path_separator = "::" if sep2 else "."
     s.rst.file_extensions_in_titles = ext_t
     s.rst.file_extensions_in_modules = ext_m
+    s.input.exclude_filters = list(PATTERNS)
     return s
 
 
@@ -127,6 +130,9 @@ def _compare_tree(settings, dirs, excluded, out, recursive, auto_ex, has_prefix,
     prefix = _PFX[0] if has_prefix else pp.basename(base)
     outabs = None if out is None else pp.normpath(pp.join(VFS.cwd, out))
     pages, indexes, order = vfslib.spec_tree(dirs, excluded, base, outabs, recursive, auto_ex, prefix, sep, ext_t, ext_m)
+    for pl in VFS.patterns:
+        if pl != PATTERNS:
+            return False                 # the exclude patterns reach the gitignore matcher verbatim, in order
     # the matcher is asked with the directory form for directories, the plain form for files
     for a in VFS.asked:
         k = pp.normpath(pp.join(VFS.cwd, a))
@@ -232,8 +238,16 @@ def check(present: List[bool], excl: List[bool], rev: List[bool], excl_root: boo
         real_dirs[BASE] = (list(subs0) + ["alias"], dirs[BASE][1])
         spec_dirs = dict(dirs)
         spec_dirs[alias] = dirs[target]          # known to be a directory (the matcher is asked about it in directory form), never listed
+        links = {alias: target}
+        if len(subs0) > 1:
+            # a second link one level down (inside the last subdirectory, to the first one)
+            host = pp.join(BASE, subs0[-1])
+            alias2 = pp.join(host, "alias2")
+            real_dirs[host] = (list(dirs[host][0]) + ["alias2"], dirs[host][1])
+            spec_dirs[alias2] = dirs[target]
+            links[alias2] = target
         VFS.reset(real_dirs, excluded)
-        VFS.links = {alias: target}
+        VFS.links = links
         VFS.rel_verdict = relv
         VFS.rel_verdict2 = relv2
         _run(BASE, settings)
